@@ -1,5 +1,6 @@
 import Driver.Proto
 import Driver.C09
+import IronCalc.Generated.ParenMove
 import Driver.C21
 import Driver.C12
 import Driver.C22
@@ -18,6 +19,7 @@ open Driver
 def dispatch (fs : List String) : String :=
   match fs with
   | "c09" :: rest => Driver.c09 IronCalc.Generated.parenStringify rest
+  | "c16" :: rest => Driver.c09 IronCalc.Generated.parenMove rest
   | "c21" :: rest => Driver.c21 rest
   | "c12" :: rest => Driver.c12 rest
   | "c22" :: rest => Driver.c22 rest
